@@ -2,8 +2,46 @@
 
 package file
 
-import "time"
+import (
+	"reflect"
+	"strings"
+	"time"
+	"unsafe"
+)
 
-func (r *RunnableStages) VerifTotalDuration() time.Duration { return r.stagesTotalDuration }
-func (r *RunnableStages) VerifMaxFailures() uint64          { return r.maxFailures }
-func (r *RunnableStages) VerifMaxFailuresRate() int         { return r.maxFailuresRate }
+// The plan's fields are looked up by name, case-insensitively and through embedded structs, so
+// that the accessor keeps building when a field is exported, unexported or moved into an
+// embedded options struct; a field that cannot be found reads as -1 (never equal to the model's).
+func verifField(r *RunnableStages, names ...string) (reflect.Value, bool) {
+	rv := reflect.ValueOf(r).Elem()
+	for _, want := range names {
+		for _, f := range reflect.VisibleFields(rv.Type()) {
+			if !strings.EqualFold(f.Name, want) {
+				continue
+			}
+			fv := rv.FieldByIndex(f.Index)
+			return reflect.NewAt(fv.Type(), unsafe.Pointer(fv.UnsafeAddr())).Elem(), true
+		}
+	}
+	return reflect.Value{}, false
+}
+
+func verifInt(r *RunnableStages, names ...string) int64 {
+	v, ok := verifField(r, names...)
+	if !ok {
+		return -1
+	}
+	switch v.Kind() {
+	case reflect.Int, reflect.Int8, reflect.Int16, reflect.Int32, reflect.Int64:
+		return v.Int()
+	case reflect.Uint, reflect.Uint8, reflect.Uint16, reflect.Uint32, reflect.Uint64:
+		return int64(v.Uint())
+	}
+	return -1
+}
+
+func (r *RunnableStages) VerifTotalDuration() time.Duration {
+	return time.Duration(verifInt(r, "stagesTotalDuration", "totalDuration"))
+}
+func (r *RunnableStages) VerifMaxFailures() uint64  { return uint64(verifInt(r, "maxFailures")) }
+func (r *RunnableStages) VerifMaxFailuresRate() int { return int(verifInt(r, "maxFailuresRate")) }
